@@ -50,7 +50,7 @@ for pid, text in sorted(P2.items()):
         "technique": "contract-based deductive verification per generated program: contracts derived from the XML by xmlsem, VCs from the ast of the emitted classes, z3 (sequences, uninterpreted folds with ground unfolding)",
     })
 P3 = {
- "C01": ("exploration", "MOSTLY BOUNDED: RT_T is discharged deductively only for fixed-size classes (ints / bools / enums, nested fixed structs, literal-length arrays: emitted deserialize executed over the interpreted WIRE_T bytes, counts in evidence under proved_for_fixed_size_classes); for all other classes the general lemma (piece normal form over the C04/C06 pair lemmas) is not built and the property is decided by runtime round trips of seeded valid values over every wire-unambiguous class of the realistic corpus and the enumerated specs. The ingredients it rests on are proved elsewhere: C02 (bytes = WIRE_T), C03 (deserialize = reading rules), C04/C06/C07 (writer->reader pairs, chunk isolation, codec)",
+ "C01": ("exploration", "PROVED per program for classes with a static piece structure, BOUNDED for the rest: RT_T is discharged deductively (emitted deserialize, nested/case classes inlined, executed over the interpreted bytes of WIRE_T(obj) with a concrete-structured reader; integer and string codecs enter as instances of the proved C07/C04/C08 lemmas) for all in-domain classes without symbolic-count arrays (counts in evidence under proved_for_fixed_size_classes); classes with length-field / read-to-end arrays need an induction that is not built and are decided by runtime round trips of seeded valid values over every wire-unambiguous class of the realistic corpus and the enumerated specs. The ingredients it rests on are proved elsewhere: C02 (bytes = WIRE_T), C03 (deserialize = reading rules), C04/C06/C07 (writer->reader pairs, chunk isolation, codec)",
          "runtime-checked round-trip contract on the real generated classes (bounded stand-in for the contract-based proof)"),
  "C14": ("exploration", "BOUNDED stand-in (not proved): ProtocolEnumMeta.__call__ is six lines delegating to CPython's EnumMeta.__call__ / int.__new__, whose behaviour a VC could only assume; its runtime contract (the statement, clause by clause) is evaluated on hand-written and generated enums x integers under both installed interpreters",
          "runtime-checked contract on the real ProtocolEnumMeta.__call__ under CPython 3.11 and 3.12 (bounded stand-in)"),
